@@ -238,6 +238,23 @@ CHECKS["C16"] = dict(
           "create_junctions are evaluated with geodata=None. A raise inside _preserve_dtypes after the write (NaN in a bool column) is not covered."),
     ref="DESIGN.md section 4 C16")
 
+CHECKS["C17"] = dict(
+    engine="E5",
+    technique="contract-based deductive verification over abstract data frames: the real reindex_elements / fuse_junctions / drop_* / continuous-index functions are evaluated symbolically with every table an uninterpreted frame (any contents), writes recorded as terms; the reference schema is derived from the create functions' checked parameters and compared with element_junction_tuples / _junction_reference_rows; bounded native stand-in for select_subnet and the pandas semantics",
+    text=("Proved for arbitrary table contents: the junction-reference columns listed by element_junction_tuples are exactly the columns the "
+          "create functions fill with checked junction parameters, restricted by _junction_reference_rows to the rows created as junction "
+          "references (valve.element only for et != 'pi'); reindex_elements maps the index, its geodata and result index and exactly these "
+          "cells through the lookup (pipe relabelling: valve.element of the et == 'pi' rows only) and writes nothing else; fuse_junctions "
+          "redirects exactly these cells with a value in j2 and drops j2 keeping elements; drop_elements_at_junctions / drop_junctions / "
+          "drop_pipes drop exactly the referencing rows with their result rows, pipes through drop_pipes, attached valves with their pipes; the "
+          "continuous index is sorted old index -> start.. delegated to reindex_elements."),
+    note=(TB + "ASSUMED (A4): pandas label indexing / isin / drop / .loc assignment and pandapower's get_indices(values, lookup) = elementwise lookup. "
+          "The frames are uninterpreted: obligations are equalities of recorded read/write terms, so they decide WHICH cells are rewritten, not pandas' "
+          "arithmetic. select_subnet, create_continuous_elements_index and 'results unchanged up to relabelling' are exercised only by the BOUNDED native "
+          "stand-in (one network, 3 labellings incl. pipe label == junction label; not proved). Sequences of operations are covered only as far as each "
+          "operation's postcondition re-establishes referential integrity (its precondition)."),
+    ref="DESIGN.md section 4 C17")
+
 NOT_APPLICABLE = {
     "C08": "uniqueness of the solution of the nonlinear system within tolerances and convergence of damped Newton in floating point: a whole-history/analytic property, no pre/post contract within reach expresses it (DESIGN.md section 5)",
     "C15": "the save/load round trip is the behaviour of pandapower/pandas/json/pickle/scipy object state; a contract strong enough would have to assume the property (DESIGN.md section 5)",
